@@ -27,6 +27,7 @@ func (tempErr) Temporary() bool { return true }
 var errPerm = errors.New("scripted permanent accept error")
 
 type slistener struct {
+	closeErr bool // Close closes the listener and then reports an error (a unix socket that cannot be unlinked, ...)
 	mu       sync.Mutex
 	script   []string
 	closed   chan struct{}
@@ -104,7 +105,15 @@ func (h *hconn) SetDeadline(t time.Time) error      { return nil }
 func (h *hconn) SetReadDeadline(t time.Time) error  { return nil }
 func (h *hconn) SetWriteDeadline(t time.Time) error { return nil }
 
-func (l *slistener) Close() error   { l.once.Do(func() { close(l.closed) }); return nil }
+func (l *slistener) Close() error {
+	l.once.Do(func() { close(l.closed) })
+	if l.closeErr {
+		return errListenerClose
+	}
+	return nil
+}
+
+var errListenerClose = errors.New("listener: close failed")
 func (l *slistener) Addr() net.Addr { return addr{} }
 
 type dlog struct {
@@ -129,6 +138,8 @@ func errName(err error) string {
 		return "closed"
 	case err == errPerm:
 		return "perm"
+	case err == errListenerClose:
+		return "listenerr"
 	case errors.Is(err, context.DeadlineExceeded), errors.Is(err, context.Canceled):
 		return "ctx"
 	}
@@ -215,6 +226,90 @@ func probeAccept(f []string) string {
 	d := strings.Join(dl.delays, ",")
 	dl.mu.Unlock()
 	return fmt.Sprintf("serve=%s;end1=%s;end2=%s;accepted=%d;open=%d;delays=%s;left=%d", serveRes, res[0], res[1], acc, open, d, left)
+}
+
+// accept2  nA:errA  nB:errB  end1,end2 : one server, two listeners with nA / nB idle connections; errX: that listener's
+// Close reports an error
+func probeAccept2(f []string) string {
+	be := &backend{log: &evlog{}, q: map[string][]string{}, dataStarted: make(chan struct{}, 8)}
+	srv := smtp.NewServer(be)
+	srv.ErrorLog = &dlog{}
+	mk := func(spec string) *slistener {
+		x := strings.Split(spec, ":")
+		l := &slistener{closed: make(chan struct{}), askedAll: make(chan struct{}), closeErr: len(x) > 1 && x[1] == "1"}
+		for i := 0; i < atoi(x[0]); i++ {
+			l.script = append(l.script, "tlshang") // a connection on which nothing ever arrives: it ends only when closed
+		}
+		return l
+	}
+	srv.TLSConfig, _ = tlsConfigs()
+	la, lb := mk(f[1]), mk(f[2])
+	before := runtime.NumGoroutine()
+	sa, sb := make(chan error, 1), make(chan error, 1)
+	go func() { sa <- srv.Serve(la) }()
+	<-la.askedAll // A is registered (and has handed out its connections) before B
+	go func() { sb <- srv.Serve(lb) }()
+	<-lb.askedAll
+	time.Sleep(5 * time.Millisecond)
+	var res []string
+	for _, e := range strings.Split(f[3], ",") {
+		switch e {
+		case "close":
+			res = append(res, errName(srv.Close()))
+		case "shutdown":
+			ctx, cancel := context.WithTimeout(context.Background(), 150*time.Millisecond)
+			res = append(res, errName(srv.Shutdown(ctx)))
+			cancel()
+		default:
+			res = append(res, "-")
+		}
+	}
+	wait := func(ch chan error) string {
+		select {
+		case err := <-ch:
+			return errName(err)
+		case <-time.After(1500 * time.Millisecond):
+			return "HANG"
+		}
+	}
+	ra, rb := wait(sa), wait(sb)
+	acc, open := 0, 0
+	for _, l := range []*slistener{la, lb} {
+		l.mu.Lock()
+		acc += len(l.hconns)
+		for _, h := range l.hconns {
+			h.mu.Lock()
+			if !h.closed {
+				open++
+			}
+			h.mu.Unlock()
+		}
+		l.mu.Unlock()
+	}
+	// clean up whatever the endings left (a Shutdown that timed out leaves the connections; a hanging Serve its listener)
+	for _, l := range []*slistener{la, lb} {
+		l.once.Do(func() { close(l.closed) })
+		l.mu.Lock()
+		for _, h := range l.hconns {
+			h.Close()
+		}
+		l.mu.Unlock()
+	}
+	left := 0
+	for i := 0; i < 300; i++ {
+		left = runtime.NumGoroutine() - before
+		if left <= 0 {
+			break
+		}
+		time.Sleep(5 * time.Millisecond)
+	}
+	if left < 0 {
+		left = 0
+	}
+	for len(res) < 2 {
+		res = append(res, "-")
+	}
+	return fmt.Sprintf("serveA=%s;serveB=%s;end1=%s;end2=%s;accepted=%d;open=%d;left=%d", ra, rb, res[0], res[1], acc, open, left)
 }
 
 // ---------------------------------------------------------------------------
@@ -412,5 +507,6 @@ var _ = io.EOF
 
 func init() {
 	probes["accept"] = probeAccept
+	probes["accept2"] = probeAccept2
 	probes["sched"] = probeSched
 }
